@@ -121,7 +121,9 @@ def effects(fn):
                 added += block(s.body, here)
                 continue
             if isinstance(s, ast.Try):
-                a = block(s.body, here)
+                # what runs inside a guarded body runs "unless an earlier statement of it raised": an implicit
+                # condition (a try/except KeyError rewritten as a membership test trades it for an explicit one)
+                a = block(s.body, here + (["<no exception in the guarded body>"] if s.handlers else []))
                 for h in s.handlers:
                     block(h.body, here + ["<except>"])
                 block(s.orelse, here + a)
@@ -175,8 +177,11 @@ def _emptiness_guard(cond, stmt_node, fn):
         subj = norm(t)
     if subj is None:
         return False
-    # the subject must be something the statement consumes as a whole sequence: an argument of the call, or the
-    # iterable of an enclosing loop
+    # the subject must be something the statement consumes as a whole sequence: an argument of the call, the iterable
+    # of a comprehension in the statement, or the iterable of an enclosing loop
+    for n in ast.walk(stmt_node):
+        if isinstance(n, ast.comprehension) and norm(n.iter) == subj:
+            return True
     for n in ast.walk(stmt_node):
         if isinstance(n, ast.Call):
             if any(norm(a) == subj for a in n.args) or any(norm(k.value) == subj for k in n.keywords):
@@ -188,6 +193,113 @@ def _emptiness_guard(cond, stmt_node, fn):
         if isinstance(p, ast.For) and subj in {norm(x) for x in ast.walk(p.iter) if isinstance(x, (ast.Name, ast.Attribute))}:
             return True
         p = pm.get(p)
+    return False
+
+
+def _implied(cond, others):
+    """the conjunct follows from another conjunct of the same path condition (`len(X) == 1` gives `len(X) != 0`)"""
+    try:
+        t = ast.parse(cond, mode="eval").body
+    except SyntaxError:
+        return False
+    subj = None
+    if isinstance(t, ast.Compare) and len(t.ops) == 1 and isinstance(t.comparators[0], ast.Constant) \
+            and t.comparators[0].value == 0 and isinstance(t.ops[0], (ast.Gt, ast.NotEq)) \
+            and isinstance(t.left, ast.Call) and norm(t.left.func) == "len" and len(t.left.args) == 1:
+        subj = norm(t.left.args[0])
+    elif isinstance(t, (ast.Name, ast.Attribute)):
+        subj = norm(t)
+    if subj is None:
+        return False
+    for o in others:
+        try:
+            u = ast.parse(o, mode="eval").body
+        except SyntaxError:
+            continue
+        if isinstance(u, ast.Compare) and len(u.ops) == 1 and isinstance(u.left, ast.Call) and norm(u.left.func) == "len" \
+                and len(u.left.args) == 1 and norm(u.left.args[0]) == subj and isinstance(u.comparators[0], ast.Constant) \
+                and isinstance(u.comparators[0].value, int):
+            k = u.comparators[0].value
+            if (isinstance(u.ops[0], ast.Eq) and k >= 1) or (isinstance(u.ops[0], ast.Gt) and k >= 0) or \
+                    (isinstance(u.ops[0], ast.GtE) and k >= 1):
+                return True
+    return False
+
+
+def _guard_nodes(cond, fn):
+    """the `if` statements of fn one of whose branch conditions carries the conjunct `cond`"""
+    out = []
+    from .model import walk_no_nested
+    for n in walk_no_nested(fn):
+        if isinstance(n, ast.If):
+            if cond in _conj_texts(n.test):
+                out.append((n, "body"))
+            if cond in _conj_texts(_negate(n.test)):
+                out.append((n, "orelse"))
+    return out
+
+
+def _eof_idiom(cond, stmt_node, fn):
+    """`if not h: break` right after `h = f.readline()` inside a scan whose `except` already ends the loop on any
+    failure: an empty line is end of file, where parsing the header fails and the handler leaves the same way"""
+    try:
+        t = ast.parse(cond, mode="eval").body
+    except SyntaxError:
+        return False
+    if isinstance(t, ast.Compare) and len(t.ops) == 1 and isinstance(t.ops[0], ast.NotEq) and \
+            isinstance(t.comparators[0], ast.Constant) and t.comparators[0].value in ("", b""):
+        t = t.left
+    if not isinstance(t, ast.Name):
+        return False
+    from .model import parents, walk_no_nested
+    reads = [a for a in walk_no_nested(fn) if isinstance(a, ast.Assign) and any(isinstance(x, ast.Name) and x.id == t.id for x in a.targets)
+             and any(isinstance(c, ast.Call) and isinstance(c.func, ast.Attribute) and c.func.attr == "readline" for c in ast.walk(a.value))]
+    if not reads:
+        return False
+    pm = parents(fn)
+    for g, side in _guard_nodes(cond, fn):
+        # the guard whose *other* side leaves by break
+        leave = g.body if side == "orelse" else g.orelse
+        eff = rules.effective(leave)
+        if not (eff and isinstance(eff[-1], ast.Break)):
+            continue
+        p = pm.get(g)
+        while p is not None and not isinstance(p, (ast.For, ast.While)):
+            if isinstance(p, ast.Try) and any(x is g for b in p.body for x in ast.walk(b)):
+                for h in p.handlers:
+                    he = rules.effective(h.body)
+                    if he and isinstance(he[-1], ast.Break) and (h.type is None or norm(h.type) in ("Exception", "BaseException")):
+                        return True
+            p = pm.get(p)
+    return False
+
+
+def _root(t):
+    while isinstance(t, (ast.Subscript, ast.Attribute)) and not (isinstance(t, ast.Attribute) and isinstance(t.value, ast.Name)
+                                                                   and t.value.id == "self"):
+        t = t.value
+    return norm(t)
+
+
+def _handled_in_sibling(cond, stmt_node, fn):
+    """the new condition selects between two branches that both store to the same object (a fast path next to the
+    general code): the element is not skipped but handled elsewhere - which branch is right is for the formula /
+    window rules of that code, not for this rule"""
+    if not isinstance(stmt_node, (ast.Assign, ast.AugAssign)):
+        return False
+    tg = stmt_node.targets[0] if isinstance(stmt_node, ast.Assign) else stmt_node.target
+    root = _root(tg)
+    for g, side in _guard_nodes(cond, fn):
+        other = g.orelse if side == "body" else g.body
+        if not other:
+            continue
+        for s in other:
+            for x in ast.walk(s):
+                if isinstance(x, (ast.Assign, ast.AugAssign)):
+                    for t in (x.targets if isinstance(x, ast.Assign) else [x.target]):
+                        if _root(t) == root:
+                            return True
+    # if / elif ladders: the sibling may sit in an enclosing if's other side
     return False
 
 
@@ -210,7 +322,8 @@ def rule_new_guard(ctx, prefix, fi):
             else:
                 new.append(c)
         if len(new) > len(rc):
-            new = [c for c in new if not _emptiness_guard(c, node, fi.node)]
+            new = [c for c in new if not _emptiness_guard(c, node, fi.node) and not _implied(c, [x for x in conds if x != c])
+                   and not _eof_idiom(c, node, fi.node) and not _handled_in_sibling(c, node, fi.node)]
             if len(new) > len(rc):
                 bad.append((node, text, new, rc))
     if not compared:
